@@ -319,3 +319,37 @@ Proof.
       * apply ltb_false_leb; auto. apply nn_zero.
       * apply ltb_false_leb; auto.
 Qed.
+
+(* ---- == is transitive on all binary64 values (a NaN is == to nothing) ---- *)
+Lemma Beqb_finite_inv (x y : B) : Beqb x y = true -> Bfin x = true -> Bfin y = true.
+Proof.
+  destruct x as [sx|[]| |[] mx ex Hx]; destruct y as [sy|[]| |[] my ey Hy];
+    cbn; intros; try discriminate; auto.
+Qed.
+
+Lemma Beqb_trans_any (x y z : B) : Beqb x y = true -> Beqb y z = true -> Beqb x z = true.
+Proof.
+  destruct (Bfin x) eqn:Fx.
+  - intros H1 H2.
+    pose proof (Beqb_finite_inv _ _ H1 Fx) as Fy.
+    pose proof (Beqb_finite_inv _ _ H2 Fy) as Fz.
+    revert H1 H2.
+    rewrite (Beqb_correct _ _ _ _ Fx Fy), (Beqb_correct _ _ _ _ Fy Fz), (Beqb_correct _ _ _ _ Fx Fz).
+    intros H1 H2. apply Req_bool_true.
+    destruct (Req_bool_spec (B2R x) (B2R y)); [|discriminate].
+    destruct (Req_bool_spec (B2R y) (B2R z)); [|discriminate].
+    congruence.
+  - destruct x as [sx|[]| |[] mx ex Hx]; cbn in Fx; try discriminate;
+      destruct y as [sy|[]| |[] my ey Hy]; cbn; intros H1; try discriminate;
+      destruct z as [sz|[]| |[] mz ez Hz]; cbn; intros H2; try discriminate; reflexivity.
+Qed.
+
+Lemma eqb_trans_any x y z : eqb x y = true -> eqb y z = true -> eqb x z = true.
+Proof. rewrite !eqb_equiv. apply Beqb_trans_any. Qed.
+
+Lemma eqb_true_nn x y : eqb x y = true -> nn x /\ nn y.
+Proof.
+  unfold nn. rewrite !is_nan_equiv, eqb_equiv.
+  destruct (Prim2B x) as [sx|[]| |[] mx ex Hx]; destruct (Prim2B y) as [sy|[]| |[] my ey Hy];
+    cbn; intros; try discriminate; auto.
+Qed.
